@@ -328,6 +328,40 @@ package phase0
 //@   requires spec != nil
 //@   ensures r != nil && r.MinSlashingPenaltyQuotient == spec.MIN_SLASHING_PENALTY_QUOTIENT && r.ProportionalSlashingMultiplier == spec.PROPORTIONAL_SLASHING_MULTIPLIER && r.InactivityPenaltyQuotient == spec.INACTIVITY_PENALTY_QUOTIENT
 
+// ---------------------------------------------------------------- initialize_beacon_state_from_eth1: the activation pass (C13)
+// After the deposits: every validator's effective balance is recomputed from its final balance,
+// min(balance - balance mod EFFECTIVE_BALANCE_INCREMENT, MAX_EFFECTIVE_BALANCE), and those at the maximum get activation
+// eligibility and activation at the genesis epoch. The concrete state's registry and balances accessors are assumed models.
+//@ sort StateP0 = *BeaconStateView
+//@ ufun pst_vals_err(StateP0) bool
+//@ ufun pst_vals(StateP0) RegIp
+//@ ufun pst_bals_err(StateP0) bool
+//@ ufun pst_bals(StateP0) BalIp
+//@ sort BalIp = common.BalancesRegistry
+//@ func (state *BeaconStateView) Validators() (r, err)
+//@   trusted
+//@   opt noalloc
+//@   ensures (err != nil) == pst_vals_err(state)
+//@   ensures err == nil ==> r != nil && r == pst_vals(state)
+//@ func (state *BeaconStateView) Balances() (r, err)
+//@   trusted
+//@   opt noalloc
+//@   ensures (err != nil) == pst_bals_err(state)
+//@   ensures err == nil ==> r != nil && r == pst_bals(state)
+//@ func GenesisFromEth1(spec, eth1BlockHash, time, deps, ignoreSignaturesAndProofs) (r0, r1, err)
+//@   property C13
+//@   panics off
+//@   opt weakcalls
+//@   opt inline=closures
+//@   use reg_len_nonneg
+//@   assigns anything, ghost(n_set_bal), ghost(n_set_lhdr), ghost(set_lhdr), ghost(n_set_eth1), ghost(set_eth1), ghost(n_set_eb), ghost(n_aelig_write), ghost(n_set_act), ghost(last_set_act_v), ghost(last_set_act_val)
+//@   ensures c13_effective_balance: err == nil && spec != nil && spec.EFFECTIVE_BALANCE_INCREMENT != 0 && r0 != nil && (forall a, b :: {reg_val(pst_vals(r0), a), reg_val(pst_vals(r0), b)} 0 <= a && a < b && b < reg_len(pst_vals(r0)) ==> reg_val(pst_vals(r0), a) != reg_val(pst_vals(r0), b)) ==> (forall i :: {reg_val(pst_vals(r0), i)} 0 <= i && i < reg_len(pst_vals(r0)) ==> v_eb_now(n_set_eb, reg_val(pst_vals(r0), i)) == min(bal_at(n_set_bal, pst_bals(r0), i) - bal_at(n_set_bal, pst_bals(r0), i) % spec.EFFECTIVE_BALANCE_INCREMENT, spec.MAX_EFFECTIVE_BALANCE))
+//@   ensures c13_activated: err == nil && spec != nil && spec.EFFECTIVE_BALANCE_INCREMENT != 0 && r0 != nil && (forall a, b :: {reg_val(pst_vals(r0), a), reg_val(pst_vals(r0), b)} 0 <= a && a < b && b < reg_len(pst_vals(r0)) ==> reg_val(pst_vals(r0), a) != reg_val(pst_vals(r0), b)) ==> (forall i :: {reg_val(pst_vals(r0), i)} 0 <= i && i < reg_len(pst_vals(r0)) && min(bal_at(n_set_bal, pst_bals(r0), i) - bal_at(n_set_bal, pst_bals(r0), i) % spec.EFFECTIVE_BALANCE_INCREMENT, spec.MAX_EFFECTIVE_BALANCE) == spec.MAX_EFFECTIVE_BALANCE ==> v_aelig(n_aelig_write, reg_val(pst_vals(r0), i)) == common.GENESIS_EPOCH)
+//@   loop 2
+//@     invariant vals == pst_vals(state) && bals == pst_bals(state) && valCount == reg_len(vals) && 0 <= i && i <= valCount
+//@     invariant spec != nil && spec.EFFECTIVE_BALANCE_INCREMENT != 0 && (forall a, b :: {reg_val(vals, a), reg_val(vals, b)} 0 <= a && a < b && b < reg_len(vals) ==> reg_val(vals, a) != reg_val(vals, b)) ==> (forall j :: {reg_val(vals, j)} 0 <= j && j < i ==> v_eb_now(n_set_eb, reg_val(vals, j)) == min(bal_at(n_set_bal, bals, j) - bal_at(n_set_bal, bals, j) % spec.EFFECTIVE_BALANCE_INCREMENT, spec.MAX_EFFECTIVE_BALANCE))
+//@     invariant spec != nil && spec.EFFECTIVE_BALANCE_INCREMENT != 0 && (forall a, b :: {reg_val(vals, a), reg_val(vals, b)} 0 <= a && a < b && b < reg_len(vals) ==> reg_val(vals, a) != reg_val(vals, b)) ==> (forall j :: {reg_val(vals, j)} 0 <= j && j < i && min(bal_at(n_set_bal, bals, j) - bal_at(n_set_bal, bals, j) % spec.EFFECTIVE_BALANCE_INCREMENT, spec.MAX_EFFECTIVE_BALANCE) == spec.MAX_EFFECTIVE_BALANCE ==> v_aelig(n_aelig_write, reg_val(vals, j)) == common.GENESIS_EPOCH)
+
 // ---------------------------------------------------------------- is_valid_genesis_state (C13)
 // genesis_time >= MIN_GENESIS_TIME and at least MIN_GENESIS_ACTIVE_VALIDATOR_COUNT validators active at the genesis epoch
 // number of validators among the first i that are active at epoch ep
